@@ -12,7 +12,9 @@ PosSet(v, F) == {PosIn(F, v[i]) : i \in DOMAIN v}
 BlockUnordered(v, F) == /\ Len(v) >= 3 /\ \A i \in DOMAIN v : v[i] \in Rng(F)
                         /\ (CHOOSE x \in PosSet(v, F) : \A y \in PosSet(v, F) : x >= y) - (CHOOSE x \in PosSet(v, F) : \A y \in PosSet(v, F) : x <= y) + 1 = Len(v)
                         /\ \E i, j \in DOMAIN v : i < j /\ PosIn(F, v[i]) > PosIn(F, v[j])
-VClassF(v, F) == IF v = None THEN "None" ELSE IF \E i \in DOMAIN v : v[i] = "zz" THEN "with-unknown"
+VClassF(v, F) == IF v = None THEN "None"
+                 ELSE IF \E i \in DOMAIN v : v[i] \notin Rng(F) /\ v[i] \in (Rng(F1) \cup Rng(F2)) THEN "with-foreign"
+                 ELSE IF \E i \in DOMAIN v : v[i] = "zz" THEN "with-unknown"
                  ELSE IF BlockUnordered(v, F) THEN "block-out-of-order" ELSE "names"
 VClass(v) == VClassF(v, IF v = v1 THEN F1 ELSE F2)
 Sig == <<rel, IF pc = "done" /\ outcome = "ok" THEN mode ELSE "refused", Len(in1.lev),
